@@ -365,33 +365,6 @@ Section FE.
   Lemma ln_half : ln (1 / 2) = - ln 2.
   Proof. unfold Rdiv. rewrite Rmult_1_l. apply ln_Rinv. lra. Qed.
 
-  Lemma find_eps_post : forall (fuel : nat) (e' : R),
-    find_eps lap fuel = Some e' ->
-    (direction lap (1 / 2) = 1 /\ ln (1 / 2) < lap (1 / 2) /\
-     exists k : nat, (k < fuel)%nat /\ e' = 1 / 2 * 2 ^ k /\
-       lap e' <= ln (1 / 2) /\
-       (forall i : nat, (i < k)%nat -> ln (1 / 2) < lap (1 / 2 * 2 ^ i)))
-    \/
-    (direction lap (1 / 2) = -1 /\ lap (1 / 2) <= ln (1 / 2) /\
-     exists k : nat, (k < fuel)%nat /\ e' = 1 / 2 * (1 / 2) ^ k /\
-       ln (1 / 2) <= lap e' /\
-       (forall i : nat, (i < k)%nat -> lap (1 / 2 * (1 / 2) ^ i) < ln (1 / 2))).
-  Proof.
-    intros fuel e' H. unfold find_eps in H.
-    destruct (direction_cases (1 / 2)) as [[Hd Hdir]|[Hd Hdir]]; rewrite Hdir in H.
-    - left. split; [exact Hdir|]. split; [exact Hd|].
-      destruct (find_loop_post _ _ _ _ H) as (k & Hk & He & Hstop & Hall).
-      rewrite Rpower_2_1 in He, Hall.
-      exists k. split; [exact Hk|]. split; [exact He|]. split.
-      + rewrite ln_half. apply Rnot_lt_le in Hstop. lra.
-      + intros i Hi. specialize (Hall i Hi). rewrite ln_half. lra.
-    - right. split; [exact Hdir|]. split; [apply Rnot_lt_le; exact Hd|].
-      destruct (find_loop_post _ _ _ _ H) as (k & Hk & He & Hstop & Hall).
-      rewrite Rpower_2_m1 in He, Hall.
-      exists k. split; [exact Hk|]. split; [exact He|]. split.
-      + rewrite ln_half. apply Rnot_lt_le in Hstop. lra.
-      + intros i Hi. specialize (Hall i Hi). rewrite ln_half. lra.
-  Qed.
 End FE.
 
 (* ---- (6) the interval instance encloses the real instance ---- *)
